@@ -19,7 +19,7 @@ wrapped-list fields, QName values that read back, tokens fields (`xs:list`), com
 `AnyElement`s of any nesting, primitives and `None`; `None` only where the field default is `None`; nested instances
 unambiguous in their candidate pool) encodes to a JSON-native dictionary, and decoding that
 dictionary into the same class has exactly one admissible result: the instance itself. -/
-theorem dict_rt (e : BEnv) (Γ : Ctx) (fac : Factory) (cfg : ParserConfig) (n : Nat) (c : ClassId) (v : Val)
+theorem dict_rt (e : DEnv) (Γ : Ctx) (fac : Factory) (cfg : ParserConfig) (n : Nat) (c : ClassId) (v : Val)
     (h : valOKj e Γ fac n c v = true) :
     ∃ j, encode Γ fac {} n v = .ok j ∧ j.native = true ∧ decode e Γ cfg n (.cls c) j = ND.pure v := by
   obtain ⟨kvs, henc, _, hnat, hdec⟩ := rt_all e Γ fac n c v h
@@ -32,7 +32,7 @@ theorem dict_rt (e : BEnv) (Γ : Ctx) (fac : Factory) (cfg : ParserConfig) (n : 
     exact hdec cfg
 
 /-- the name the framework uses for the provable part of a statement that is false at full strength -/
-theorem dict_rt_partial (e : BEnv) (Γ : Ctx) (fac : Factory) (cfg : ParserConfig) (n : Nat) (c : ClassId) (v : Val)
+theorem dict_rt_partial (e : DEnv) (Γ : Ctx) (fac : Factory) (cfg : ParserConfig) (n : Nat) (c : ClassId) (v : Val)
     (h : valOKj e Γ fac n c v = true) :
     ∃ j, encode Γ fac {} n v = .ok j ∧ j.native = true ∧ decode e Γ cfg n (.cls c) j = ND.pure v :=
   dict_rt e Γ fac cfg n c v h
@@ -58,7 +58,7 @@ contexts) typing is enough: every instance whose field values have the declared 
 `valOKj` without its per-instance pool condition) round-trips, for both factories.  Outside such
 universes `bind_complex_type` builds candidate pools and the per-instance condition of `dict_rt`
 decides (`subclass_winners` is the witness that it cannot be dropped). -/
-theorem dict_rt_universe (e : BEnv) (Γ : Ctx) (fac : Factory) (cfg : ParserConfig) (n : Nat) (c : ClassId) (v : Val)
+theorem dict_rt_universe (e : DEnv) (Γ : Ctx) (fac : Factory) (cfg : ParserConfig) (n : Nat) (c : ClassId) (v : Val)
     (huni : noSubclassPools Γ = true) (h : valOKu e Γ fac n c v = true) :
     ∃ j, encode Γ fac {} n v = .ok j ∧ j.native = true ∧ decode e Γ cfg n (.cls c) j = ND.pure v :=
   dict_rt e Γ fac cfg n c v (valOKu_valOKj e Γ fac huni n c v h)
@@ -72,7 +72,7 @@ example : noSubclassPools subCtx = false ∧ valOKu benv0 subCtx .dict 3 "P".toL
 /-- **encode_json_native**: the encoded form of an instance of the fragment only holds
 JSON-native values: `encode` is total into the JSON AST and every object is a proper mapping
 (pairwise distinct keys at every level), so a JSON library dumps it and loads it back unchanged. -/
-theorem encode_json_native (e : BEnv) (Γ : Ctx) (fac : Factory) (n : Nat) (c : ClassId) (v : Val)
+theorem encode_json_native (e : DEnv) (Γ : Ctx) (fac : Factory) (n : Nat) (c : ClassId) (v : Val)
     (h : valOKj e Γ fac n c v = true) : ∃ j, encode Γ fac {} n v = .ok j ∧ j.native = true := by
   obtain ⟨j, h1, h2, _⟩ := dict_rt e Γ fac {} n c v h
   exact ⟨j, h1, h2⟩
@@ -81,7 +81,7 @@ example : ∃ j, encode okwCtx .filterNone {} 3 okw_value = .ok j ∧ j.native =
   encode_json_native benv0 okwCtx .filterNone 3 "Doc".toList okw_value (by rfl)
 
 /-- **list_rt**: list-of-models documents (`decode(data, List[c])`) -/
-theorem list_rt (e : BEnv) (Γ : Ctx) (fac : Factory) (cfg : ParserConfig) (n : Nat) (c : ClassId) (vs : List Val)
+theorem list_rt (e : DEnv) (Γ : Ctx) (fac : Factory) (cfg : ParserConfig) (n : Nat) (c : ClassId) (vs : List Val)
     (h : ∀ v ∈ vs, valOKj e Γ fac n c v = true) :
     ∃ j, encode Γ fac {} n (.list vs) = .ok j ∧ j.native = true ∧
       decode e Γ cfg n (.listOf c) j = ND.pure (.list vs) := by
@@ -116,7 +116,7 @@ example : ∀ v ∈ [okw_value, okw_value], valOKj benv0 okwCtx .filterNone 3 "D
 any JSON library that is inverse on JSON-native values (the recorded assumption on `json.dump/load`). -/
 theorem json_rt {Text : Type} (lib : JsonLib Text)
     (hlib : ∀ j : J, j.native = true → ∃ t, lib.dump j = some t ∧ lib.load t = some j)
-    (e : BEnv) (Γ : Ctx) (fac : Factory) (cfg : ParserConfig) (n : Nat) (c : ClassId) (v : Val)
+    (e : DEnv) (Γ : Ctx) (fac : Factory) (cfg : ParserConfig) (n : Nat) (c : ClassId) (v : Val)
     (h : valOKj e Γ fac n c v = true) :
     ∃ t, render lib Γ fac {} n v = .ok t ∧ parseText lib e Γ cfg n (.cls c) t = ND.pure v := by
   obtain ⟨j, henc, hnat, hdec⟩ := dict_rt e Γ fac cfg n c v h
@@ -132,7 +132,7 @@ example : ∀ j : J, j.native = true → ∃ t, (⟨some, some⟩ : JsonLib J).d
 /-- **best_match_unique**: when exactly the instance's own class matches the encoded keys among the
 candidates, `bind_best_dataclass` has one admissible winner — the instance — whatever the iteration
 order of the candidate set (and for ordered candidates alike). -/
-theorem best_match_unique (e : BEnv) (Γ : Ctx) (fac : Factory) (cfg : ParserConfig) (n : Nat) (ordered : Bool)
+theorem best_match_unique (e : DEnv) (Γ : Ctx) (fac : Factory) (cfg : ParserConfig) (n : Nat) (ordered : Bool)
     (pool : List ClassId) (k' : ClassId) (fs' : List (Str × Val))
     (hok : valOKj e Γ fac n k' (.obj k' fs') = true)
     (hpool : pool.filter (localNamesMatch Γ (encKeys Γ fac (.obj k' fs'))) = [k']) :
@@ -150,14 +150,14 @@ example : valOKj benv0 subCtx .dict 2 "Ch2".toList
 /-! ## the statement at full strength is false: the known findings -/
 
 /-- the round trip for one instance -/
-def DictRoundTrip (e : BEnv) (Γ : Ctx) (fac : Factory) (n : Nat) (c : ClassId) (v : Val) : Prop :=
+def DictRoundTrip (e : DEnv) (Γ : Ctx) (fac : Factory) (n : Nat) (c : ClassId) (v : Val) : Prop :=
   ∃ j, encode Γ fac {} n v = .ok j ∧ decode e Γ {} n (.cls c) j = ND.pure v
 
 /-- full strength: every instance the encoder accepts comes back when decoded into ITS OWN class, for every
 class universe (the target class is the instance's class: decoding into an unrelated class is no round trip, and a
 statement that quantified the class freely would be refuted without any defect) -/
 def dict_rt_full : Prop :=
-  ∀ (e : BEnv) (Γ : Ctx) (fac : Factory) (n : Nat) (c : ClassId) (v : Val) (j : J),
+  ∀ (e : DEnv) (Γ : Ctx) (fac : Factory) (n : Nat) (c : ClassId) (v : Val) (j : J),
     (∃ fs, v = .obj c fs) → encode Γ fac {} n v = .ok j → decode e Γ {} n (.cls c) j = ND.pure v
 
 /-- C04-subclass-ambiguity: `P(c=Ch(v=1))` → `{"c": {"v": 1}}` → the admissible results are
